@@ -67,6 +67,18 @@ def _renamed(j, baseline):
             k = (_module(b["path"]), json.dumps(sig, sort_keys=True))
             if k in gone:
                 out[b["path"]] = gone[k][0]
+    # a *moved* function: same name and signature, another module (the pinned one gone, exactly one candidate)
+    gone_by_name = {}
+    for p, sigs in baseline.items():
+        if p not in present and not p.startswith("<"):
+            for sig in sigs:
+                gone_by_name.setdefault((p.rsplit("::", 1)[-1], json.dumps(sig, sort_keys=True)), set()).add(p)
+    for b in j["bodies"]:
+        if b.get("def_kind") in ("Fn", "AssocFn") and b["path"] not in baseline and b["path"] not in out and not b["path"].startswith("<"):
+            sig = {"inputs": b.get("sig_inputs"), "output": b.get("sig_output"), "is_async": bool(b.get("is_async"))}
+            c = gone_by_name.get((b["path"].rsplit("::", 1)[-1], json.dumps(sig, sort_keys=True)), set()) - set(out.values())
+            if len(c) == 1:
+                out[b["path"]] = next(iter(c))
     # a renamed *type*: every method of `mod::Old` is gone and `mod::New` has methods of the same names and — up to the
     # type's own name — the same signatures
     def norm(sig, tyname):
